@@ -240,7 +240,7 @@ def run(ctx):
     r_fwd = ctx.rule('C14.e-forwarding', 'DefaultEngine::{fft,ifft,mul} dispatch to the boxed engine chosen by new()')
     for cfg in cfgs:
         facts = ctx.facts(cfg)
-        check_cfg(ctx, facts, cfg)
+        ctx.guard('C14.analysable', check_cfg, ctx, facts, cfg)
 
 
 def engine_types(facts):
